@@ -72,6 +72,41 @@ def ep_movie_name(env, s):
     return mv.name[: -len(".mp4")]
 
 
+def ep_movie_ext(env, s):
+    """the caller's string as the EXTENSION of the movie file (it becomes the extension of the media part's name)"""
+    mv = env.slide.shapes.add_movie(env.file("clip." + s, b"not-a-movie"), 0, 0, 10, 10, mime_type="video/mp4")
+    n = mv.name
+    return n[len("clip."):] if n.startswith("clip.") else n
+
+
+def ep_click_shared(env, s):
+    """two shapes of one slide whose click hyperlinks carry the SAME address (one relationship); one is re-pointed or
+    cleared; the untouched one must still read `s`, also after save and re-open"""
+    import io as _io
+
+    from pptx import Presentation
+
+    a = env.slide.shapes.add_textbox(0, 0, 9, 9); a.name = "click-a"
+    b = env.slide.shapes.add_textbox(0, 0, 9, 9); b.name = "click-b"
+    a.click_action.hyperlink.address = s
+    b.click_action.hyperlink.address = s
+    a.click_action.hyperlink.address = None if len(s) % 2 else "http://other.example/?" + str(len(s))
+    try:
+        got = b.click_action.hyperlink.address
+    except KeyError as e:
+        return "KeyError(%s)" % e
+    if got != s:
+        return repr(got)
+    buf = _io.BytesIO(); env.prs.save(buf)
+    prs2 = Presentation(_io.BytesIO(buf.getvalue()))
+    idx = [x.slide_id for x in env.prs.slides].index(env.slide.slide_id)
+    bs = [sh for sh in prs2.slides[idx].shapes if sh.name == "click-b"]
+    try:
+        return bs[-1].click_action.hyperlink.address
+    except KeyError as e:
+        return "KeyError(%s) after re-open" % e
+
+
 def ep_ph_picture_desc(env, s):
     sl = env.prs.slides.add_slide(env.prs.slide_layouts[8])  # Picture with Caption
     ph = [p for p in sl.placeholders if p.placeholder_format.type is not None and "PICTURE" in str(p.placeholder_format.type)][0]
@@ -189,6 +224,8 @@ NOBREAK = lambda s: "\n" not in s and "\v" not in s and not any(ord(c) < 32 and 
 ENTRY_POINTS = [
     ("picture file name -> p:cNvPr/@descr", fname_ok, ep_picture_desc),
     ("movie file name -> shape name", fname_ok, ep_movie_name),
+    ("movie file extension -> shape name / media part name", lambda s: fname_ok(s) and "." not in s, ep_movie_ext),
+    ("shape click hyperlink address shared by two shapes, the other one re-pointed or cleared", lambda s: s != "", ep_click_shared),
     ("placeholder picture file name -> @descr", fname_ok, ep_ph_picture_desc),
     ("OLE prog_id", lambda s: s != "", ep_ole_progid),
     ("chart series name", lambda s: True, ep_series_name),
